@@ -61,7 +61,7 @@ var YieldPackages = map[string]bool{
 	Module + "/wire":                true,
 }
 
-var simulatedSync = map[string]bool{"Mutex": true, "WaitGroup": true, "Pool": true}
+var simulatedSync = map[string]bool{"Mutex": true, "WaitGroup": true, "Pool": true, "RWMutex": true, "Once": true, "Locker": true}
 
 // Rewrite loads every non-test package of the module rooted at dir (except
 // internal/zzsim/** other than the regenerated corpus under internal/zzsim/gen)
